@@ -88,6 +88,10 @@ def blist(b):
 def keys(ctx):
     rng = ctx.rng
     out = [b'', b'\x00', b'\xff', b'\x80' * 16, b'\xff' * 15, b'\xff' * 17, bytes(range(256))]
+    # corpus: 16-byte keys (obtained by inverting the hash for one block) whose raw hash is exactly Long.MIN_VALUE,
+    # MIN_VALUE + 1 and MAX_VALUE: the only inputs on which the MIN_LONG -> MAX_LONG normalisation is visible
+    out += [bytes.fromhex(h) for h in ('dfe76f52023fad4c82b861c2c65c7a6b', '0d68d15960efee13f50aaac4a49090e1',
+                                       '1aaebd2d9c3a9d7e66513b2c91fcf940')]
     maxlen = 64 if ctx.tier == 'quick' else 200
     reps = 3 if ctx.tier == 'quick' else 12
     for n in range(0, maxlen + 1):
